@@ -394,7 +394,10 @@ class Evaluator:
             return None
         if op in ("ptrtoint", "inttoptr", "bitcast", "sext", "trunc", "freeze", "addrspacecast"):
             mm = re.match(r"^\w+ (.+?) (\S+) to (.+)$", rhs) or re.match(r"^freeze (.+?) (\S+)$", rhs)
-            env[dst] = self.val(mm.group(2), env)
+            v = self.val(mm.group(2), env)
+            if isinstance(v, Bool) and op == "sext":
+                v = atom("ite", v.why, Poly.const(-1), Poly.const(0)) if v.v is None else Poly.const(-1 if v.v else 0)
+            env[dst] = v
             return None
         if op == "zext":
             mm = re.match(r"^zext (.+?) (\S+) to (.+)$", rhs)
